@@ -33,8 +33,14 @@ UNORDERED = {"opset_import", "value_info", "metadata_props"}
 DOMAIN_FIELDS = {("NodeProto", "domain"), ("OperatorSetIdProto", "domain"), ("FunctionProto", "domain")}
 
 
-def canon(msg, path=""):
-    """Canonical python form of a message under the statement's normalisations."""
+_ORIG_VI = {}        # graph path -> names that had a value_info entry in the ORIGINAL proto (see canon)
+
+
+def canon(msg, path="", role=None):
+    """Canonical python form of a message under the statement's normalisations.
+    role="orig": record, per graph, which names carry a value_info entry; role="back": value_info entries of initializers that
+    the original did not have are dropped ("value-info is added for initializers"), every other entry is compared - so an
+    initializer's own value-info (type / dimension denotations, doc string, metadata) must survive."""
     tname = msg.DESCRIPTOR.name
     out = {}
     oneofs = {o.name: msg.WhichOneof(o.name) for o in msg.DESCRIPTOR.oneofs if not o.name.startswith("_")}
@@ -44,7 +50,7 @@ def canon(msg, path=""):
         v = getattr(msg, fd.name)
         if fd.is_repeated:
             if fd.type == fd.TYPE_MESSAGE:
-                items = [canon(x, f"{path}/{fd.name}[{i}]") for i, x in enumerate(v)]
+                items = [canon(x, f"{path}/{fd.name}[{i}]", role) for i, x in enumerate(v)]
                 if fd.name in UNORDERED or (tname == "TensorProto" and fd.name == "external_data"):
                     items = sorted(items, key=repr)
                 out[fd.name] = items
@@ -55,7 +61,7 @@ def canon(msg, path=""):
                         items.pop()
                 out[fd.name] = [x if x == x else "nan" for x in items]
         elif fd.type == fd.TYPE_MESSAGE:
-            out[fd.name] = canon(v, f"{path}/{fd.name}") if msg.HasField(fd.name) else None
+            out[fd.name] = canon(v, f"{path}/{fd.name}", role) if msg.HasField(fd.name) else None
         else:
             if (tname, fd.name) in DOMAIN_FIELDS and v == "ai.onnx":
                 v = ""
@@ -63,7 +69,13 @@ def canon(msg, path=""):
     if tname == "GraphProto":
         inits = {t.name for t in msg.initializer}
         referenced = {x for n in msg.node for x in list(n.input) + list(n.output) if x} | {o.name for o in msg.output} | {i.name for i in msg.input}
-        out["value_info"] = [c for c in out["value_info"] if c["name"] in referenced and c["name"] not in inits]
+        if role == "orig":
+            _ORIG_VI[path] = {c["name"] for c in out["value_info"]}
+        had = _ORIG_VI.get(path, set()) if role == "back" else None
+        out["value_info"] = [c for c in out["value_info"] if c["name"] in referenced and
+                             (c["name"] not in inits or (role == "orig") or (role == "back" and c["name"] in had))]
+        if role is None:
+            out["value_info"] = [c for c in out["value_info"] if c["name"] not in inits]
     return out
 
 
@@ -114,7 +126,8 @@ def run_c02(a, rnd, failures, stats):
         except Exception as e:  # noqa: BLE001
             failures.append(f"{label}: round trip raised {type(e).__name__}: {str(e)[:200]}")
             continue
-        d = first_diff(canon(p), canon(q))
+        _ORIG_VI.clear()
+        d = first_diff(canon(p, role="orig"), canon(q, role="back"))
         if d:
             failures.append(f"{label}: proto -> IR -> proto differs at {d}"[:420])
         # leaf pairs on sub-messages
@@ -445,6 +458,27 @@ def api_models():
         fin = node("Add", [outer_h.outputs[0], ctl.outputs[0]], "y")
         g = ir.Graph([x], [fin.outputs[0]], nodes=[outer_h, ctl, fin], name="main", opset_imports={"": 18})
         out.append((f"api:shadowing/{variant}", ir.Model(g, ir_version=10)))
+    # denotations on a NON-input initializer (type and dimensions), whose dims/dtype agree with its tensor
+    x = val("x")
+    w = ir.Value(name="w", type=ir.TensorType(ir.DataType.FLOAT, denotation="TENSOR"),
+                 shape=ir.Shape([2, 3], denotations=("FILTER_OUT_CHANNEL", "FILTER_IN_CHANNEL")),
+                 const_value=ir.tensor(np.ones((2, 3), dtype=np.float32), name="w"))
+    add = node("Add", [x, w], "y")
+    add.outputs[0].type = ir.TensorType(ir.DataType.FLOAT, denotation="IMAGE")
+    add.outputs[0].shape = ir.Shape([2, 3], denotations=("DATA_BATCH", None))
+    g = ir.Graph([x], [add.outputs[0]], nodes=[add], initializers=[w], name="main", opset_imports={"": 18})
+    out.append(("api:denotations-on-initializer", ir.Model(g, ir_version=10)))
+    # a typed node output that stops being a graph output through `del graph.outputs[i]` (every index spelling) keeps its value info
+    for idx in (-1, 1, 0, -2):
+        x = val("x")
+        a = node("Relu", [x], "a")
+        b = node("Neg", [a.outputs[0]], "b")
+        for o, doc in ((a.outputs[0], "first"), (b.outputs[0], "second")):
+            o.doc_string = doc
+            o.metadata_props["k"] = doc
+        g = ir.Graph([x], [a.outputs[0], b.outputs[0]], nodes=[a, b], name="main", opset_imports={"": 18})
+        del g.outputs[idx]
+        out.append((f"api:del-output[{idx}]", ir.Model(g, ir_version=10)))
     return out
 
 
